@@ -29,7 +29,8 @@ const (
 	bPanicBeforeGate
 	bPanicAfterGate
 	bPanicNow
-	bNil // a nil func value is submitted: nothing can run, but the slot must come back and Wait must not hang
+	bNil    // a nil func value is submitted: nothing can run, but the slot must come back and Wait must not hang
+	bGoexit // the function ends its goroutine with runtime.Goexit (what t.Fatal / t.SkipNow do): finished, not panicked
 )
 
 type task struct {
@@ -106,11 +107,11 @@ func gen(t *rapid.T) (c limCase) {
 	}()
 	n := rapid.IntRange(1, 24).Draw(t, "ntasks")
 	for i := 0; i < n; i++ {
-		c.Tasks = append(c.Tasks, task{B: rapid.SampledFrom([]int{bReturn, bYield, bGate, bGate, bGate, bPanicBeforeGate, bPanicAfterGate, bPanicNow, bGate, bYield, bReturn, bPanicNow, bNil}).Draw(t, "b"), K: rapid.IntRange(0, 5).Draw(t, "k")})
+		c.Tasks = append(c.Tasks, task{B: rapid.SampledFrom([]int{bReturn, bYield, bGate, bGate, bGate, bPanicBeforeGate, bPanicAfterGate, bPanicNow, bGate, bYield, bReturn, bPanicNow, bNil, bGoexit}).Draw(t, "b"), K: rapid.IntRange(0, 5).Draw(t, "k")})
 	}
 	var gates []int
 	for i, tk := range c.Tasks {
-		if tk.B == bGate || tk.B == bPanicBeforeGate || tk.B == bPanicAfterGate {
+		if tk.B == bGate || tk.B == bPanicBeforeGate || tk.B == bPanicAfterGate || (tk.B == bGoexit && tk.K%2 == 1) {
 			gates = append(gates, i)
 		}
 	}
@@ -183,6 +184,11 @@ func (w *world) body(i int, tk task) func() {
 			}
 		case bGate:
 			wait()
+		case bGoexit:
+			if tk.K%2 == 1 {
+				wait()
+			}
+			runtime.Goexit()
 		case bPanicNow, bPanicBeforeGate:
 			raise(i, tk.K, w.ptrs[i])
 		case bPanicAfterGate:
@@ -429,7 +435,7 @@ func run(c limCase, r *pb.Rec) error {
 	var bodies []func()
 	var wantPanics []any
 	runtimeFaults := 0
-	nilCount := 0
+	nilCount, goexits := 0, 0
 	for i, tk := range c.Tasks {
 		w.gates[i] = make(chan struct{})
 		w.ptrs[i] = &tagErr{i}
@@ -439,6 +445,10 @@ func run(c limCase, r *pb.Rec) error {
 			continue
 		}
 		bodies = append(bodies, w.body(i, tk))
+		if tk.B == bGoexit {
+			goexits++
+			continue
+		}
 		if tk.B >= bPanicBeforeGate {
 			v := raised(i, tk.K, w.ptrs[i])
 			wantPanics = append(wantPanics, v)
@@ -539,6 +549,9 @@ func run(c limCase, r *pb.Rec) error {
 		spare := 0
 		for j, g := range got {
 			if !used[j] {
+				if g == nil && goexits > 0 {
+					continue // a handler told about a Goexit (recover() returns nil there) is tolerated
+				}
 				if _, ok := g.(runtime.Error); !ok || spare >= nilCount {
 					return fmt.Errorf("panic handler was called %d times for %d panics (and %d nil functions): unexpected value %T(%v); all values: %s", len(got), len(wantPanics), nilCount, g, g, describe(got))
 				}
@@ -663,6 +676,7 @@ func run(c limCase, r *pb.Rec) error {
 	r.ClassIf(len(wantPanics) > 0, "panics raised")
 	r.ClassIf(c.Limit < 1, "limit below 1 (default 3)")
 	r.ClassIf(nilCount > 0, "nil func submitted")
+	r.ClassIf(goexits > 0, "function ended by runtime.Goexit")
 	r.ClassIf(c.WaitForm == 1, "Wait called with an empty non-nil duration slice")
 	r.ClassIf(!c.Handler && len(wantPanics) > 0, "panic without handler")
 	r.ClassIf(int(w.maxInside) == n, "limit reached")
@@ -681,7 +695,7 @@ func describe(vs []any) string {
 func TestLimiter(t *testing.T) {
 	st := pb.Stats("limiter")
 	st.SetRule("scenarios: limit -2..6 (below 1 => 3), 1..24 functions that return / yield / park on a harness gate / panic (before or after the gate), drawn gate release order, with or without panic handler, GOMAXPROCS 1..16; the harness releases one gate at a time, each time from a quiescent state, and after Wait() submits n more parked functions that must all run concurrently; monitors: concurrency never above n, exactly-once execution, Wait() only after all finished, handler receives every panic value itself (strings, pointers by identity, runtime faults by type and message), an expired timed Wait followed by idle and reuse (plain mode), no slot leaked (state-based: submitter parked in the Limiter's channel send while fewer than n functions hold slots); schedules inside the Limiter are sampled, not owned; non-trivial = a panic followed by a saturation phase")
-	st.Require("second Limiter saturated alongside", "timed Wait on the idle Limiter", "handler checked against a fault raised by the runtime", "nil func submitted", "Wait called with an empty non-nil duration slice", "timed Wait expired while functions ran, Limiter reused after going idle", "saturated: submitter blocked with all slots held", "panics raised", "limit below 1 (default 3)", "panic without handler", "limit reached")
+	st.Require("second Limiter saturated alongside", "timed Wait on the idle Limiter", "handler checked against a fault raised by the runtime", "nil func submitted", "function ended by runtime.Goexit", "Wait called with an empty non-nil duration slice", "timed Wait expired while functions ran, Limiter reused after going idle", "saturated: submitter blocked with all slots held", "panics raised", "limit below 1 (default 3)", "panic without handler", "limit reached")
 	// the default panic handler prints to stdout: keep the test output clean (swapped once, not per case)
 	if dn, err := os.OpenFile(os.DevNull, os.O_WRONLY, 0); err == nil {
 		old := os.Stdout
